@@ -152,7 +152,7 @@ def chr_to_int(i):
     try:
         value = ord(s)
     except TypeError:
-        raise BibTeXError('%s passed to chr.to.int$', s)
+        raise BibTeXError('%s passed to chr.to.int$' % (s,))
     i.push(value)
 
 @builtin('cite$')
@@ -225,7 +225,7 @@ def int_to_chr(i):
     try:
         char = chr(n)
     except ValueError:
-        raise BibTeXError('%i passed to int.to.chr$', n)
+        raise BibTeXError('%i passed to int.to.chr$' % n)
     i.push(char)
 
 @builtin('int.to.str$')
